@@ -118,6 +118,8 @@ class MemSocket:
     def shutdown(self, how):
         if self.closed:
             raise OSError(errno.EBADF, "Bad file descriptor (mem)")
+        if self.reset:
+            raise OSError(errno.ENOTCONN, "Transport endpoint is not connected (mem)")
         if self.peer is not None:
             self.peer.eof = True
 
